@@ -273,6 +273,7 @@ def r4_templates(ctx):
 
 
 def run(ctx):
+    ctx.guard("C07.REQ", "requirements are checked", lambda: __import__("initspec").check_requires(ctx, "C07"))
     ctx.guard("C07.INIT", "init installs the configured state", lambda: __import__("initspec").check_for(ctx, "C07"))
     ctx.guard("C07.K17", "constructor fidelity", lambda: __import__("ctor").check_for(ctx, "C07", 5))
     ctx.guard("C07.R4", "templates", lambda: r4_templates(ctx))
